@@ -494,8 +494,17 @@ def _run(ctx):
     # ---------------- correspondence A: triangular / Fbank positions (tags)
     tri_cases = [c for c in cases if c["kind"] in ("tri", "fbank") and c["obs"] is not None]
     cpx_cases = [c for c in cases if c["kind"] in ("gabor", "gt") and c["obs"] is not None]
-    ok_model, out = C.coq_make(["C06/Model.v"]) if ok_gen else (False, "")
-    ok_r, out_r = C.coq_make(["lib/C06_Cert.v"]) if ok_model else (False, out)
+    # one build for everything the correspondence needs (a single wait for the build lock)
+    ok_all, out = C.coq_make(["C06/Model.v", "lib/C06_Cert.v", "C06/BoundExamples.v"]) if ok_gen else (False, "")
+    if ok_all:
+        ok_model, ok_r, out_r = True, True, ""
+    else:
+        ok_model, out = C.coq_make(["C06/Model.v"]) if ok_gen else (False, "")
+        ok_r, out_r = C.coq_make(["lib/C06_Cert.v"]) if ok_model else (False, out)
+        ok_ex, out_ex = C.coq_make(["C06/BoundExamples.v"]) if ok_model else (False, out)
+        if ok_model and not ok_ex:
+            ctx.fail("the examples showing that the hypotheses of the 2*eps theorems are satisfiable no longer check",
+                     dict(theorem_or_file="C06/BoundExamples.v", log_tail=out_ex[-1500:]), kind="proof", no_input=True)
     mism = []
     if ok_model:
         def tri_inputs(c):
